@@ -125,3 +125,14 @@ Print Assumptions C02_src_pin_mod_load_driver.
 Print Assumptions C02_src_pin_parfile_new.
 Print Assumptions C02_src_pin_parblock_new.
 Print Assumptions C02_src_pin_main_main.
+
+(* "nothing is created outside the destination": a dangling symbolic link found where a regular file is to be copied is
+   refused before any mutating action (the file would otherwise appear wherever the link points) — repair a3911ca *)
+From XcpModel Require Import Ops.
+From XcpProofs Require Import OpsProofs.
+Theorem C02_no_write_through_dangling_link : forall fc src dst e,
+  ce_dst_exists e = false ->
+  snd (copy_actions_d true fc src dst e) = false /\
+  forall a, List.In a (fst (copy_actions_d true fc src dst e)) -> mutated a = nil.
+Proof. exact copy_dangling_refused. Qed.
+Print Assumptions C02_no_write_through_dangling_link.
